@@ -10,8 +10,7 @@ sys.path.insert(0, HERE)
 REPO = os.environ.get('VERIF_REPO', '/repo')
 NCPU = int(os.environ.get('VERIF_JOBS', '16'))
 
-CXXFLAGS = ['-std=c++17', '-O1', '-DNDEBUG', '-fno-access-control', '-I' + REPO + '/include', '-I' + ROOT + '/wrappers',
-            '-DOSMCODE_LIBOSMIUM_VERIF']
+CXXFLAGS = ['-std=c++17', '-O1', '-DNDEBUG', '-fno-access-control', '-I' + REPO + '/include', '-I' + ROOT + '/wrappers']       # the hook guard OSMCODE_LIBOSMIUM_VERIF is off unless a harness asks for it (Harness.defs)
 CLANG_IR = ['clang++-14'] + CXXFLAGS + ['-fno-vectorize', '-fno-slp-vectorize', '-fno-unroll-loops', '-S', '-emit-llvm', '-Wno-everything']
 
 
